@@ -454,9 +454,15 @@ def run(res):
     if rc3 != 0 or len(model) != len(ops):
         res.violation("model protocol failure rc=%d lines %d/%d %s" % (rc3, len(model), len(ops), err3[-400:]), {}, False, key="protocol")
         return
+    per_class = {}          # class -> [lines answered by the hand model, lines not modelled, accepted lines answered by the model]
     for i, (a, b) in enumerate(zip(impl, model)):
+        pc_ = per_class.setdefault(classify_key(ops[i], insts, enc_names), [0, 0, 0])
         if b == "err NotModelled":
+            pc_[1] += 1
             continue
+        pc_[0] += 1
+        if a.startswith("ok"):
+            pc_[2] += 1
         modelled += 1
         if a != b:
             diffs.append(i)       # every difference is reported (key "corr"); the model follows /repo as it is
@@ -487,6 +493,10 @@ def run(res):
     res.coverage["accepted_by_probe_kind"] = tags
     res.coverage["model_lines"] = modelled
     res.coverage["model_diffs"] = len(diffs)
+    res.coverage["model_lines_by_class"] = {k: {"modelled": v[0], "not_modelled": v[1], "modelled_accepted": v[2]}
+                                            for k, v in sorted(per_class.items(), key=lambda x: -(x[1][0] + x[1][1]))}
+    res.coverage["classes_modelled"] = len([1 for v in per_class.values() if v[0] and not v[1]])
+    res.coverage["classes_not_modelled"] = sorted(k for k, v in per_class.items() if v[1])
     res.coverage["model_diff_samples"] = [{"op": ops[i], "impl": impl[i], "model": model[i]} for i in diffs[:8]]
     res.coverage["input_distribution"] = dict(sorted(kinds.items(), key=lambda x: -x[1])[:120])
     res.coverage["traces_validated_against_impl"] = modelled
